@@ -526,6 +526,36 @@ def negative_builds(res, rng):
         res.violation("duplicate-accepted", "graph with two variables named 'same' was accepted", {})
     except Exception:  # noqa: BLE001
         pass
+    # two variables that end up with the same name although all their NODES have distinct (user-given) names
+    import tensorflow_probability.substrates.jax.distributions as tfd
+
+    u1 = lsl.Var(lsl.Value(1.0, _name="d1"), name="a")
+    u2 = lsl.Var(lsl.Value(2.0, _name="d2"), name="b")
+    u2.name = "a"
+    c3 = lsl.Calc(lambda x, y: x + y, u1, u2, _name="c3")
+    try:
+        mdup = lsl.GraphBuilder().add(c3).build_model()
+        res.violation("duplicate-accepted", "graph with two variables named 'a' (user-named value nodes 'd1' and 'd2', the second "
+                      f"variable renamed before the build) was accepted; model.vars = {sorted(mdup.vars)}, "
+                      f"{len([n for n in mdup.nodes.values() if n.var is not None])} nodes belong to variables", {})
+    except Exception:  # noqa: BLE001
+        pass
+    # variables with user-named nodes are as frozen as any other
+    res.mon("mutation_rejected")
+    for nm_new in ("other", ""):
+        f1 = lsl.Var(lsl.Value(1.0, _name="data"), name="x")
+        f2 = lsl.Var(lsl.Value(0.5, _name="data2"), lsl.Dist(tfd.Normal, loc=0.0, scale=1.0, _name="mydist"), name="z")
+        mfr = lsl.GraphBuilder().add(f1, f2).build_model()
+        for fv, key in ((f1, "x"), (f2, "z")):
+            try:
+                fv.name = nm_new
+                res.violation("mutation-accepted", f"Var.name = {nm_new!r} succeeded on a variable of a built model whose nodes have "
+                              f"user-given names; model.vars keys {sorted(mfr.vars)}, the variable now reports name {fv.name!r}", {})
+            except Exception:  # noqa: BLE001
+                pass
+            if fv.name != key or sorted(mfr.vars) != ["x", "z"] or mfr.vars[key] is not fv:
+                res.violation("changed-by-rejected-mutation", f"after the attempt Var.name = {nm_new!r}: variable reports {fv.name!r}, "
+                              f"model.vars keys {sorted(mfr.vars)}", {})
     # a rejected build must leave the builder usable: correct the graph and build again from the SAME builder
     res.mon("builder_usable_after_rejected_build")
     p1 = lsl.Value(1.0, _name="dup2")
